@@ -123,8 +123,8 @@ func (m c18Msg) in() inMsg {
 }
 
 func (m c18Msg) String() string {
-	if m.Type == "FLAP" {
-		return "FLAP+" + m.Gap.String()
+	if m.Type == "FLAP" || m.Type == "CLOCK-BACK" {
+		return m.Type + "+" + m.Gap.String()
 	}
 	s := m.Type
 	if m.Type == "RA" {
@@ -199,6 +199,10 @@ func c18Run(t *testing.T, c c18Case) (x *vsched.Exec, out [][2]string) {
 		Horizon: 10 * time.Minute,
 		Setup: func(x *vsched.Exec) {
 			m := newMonWorld("eth0", true)
+			// The monitor's wall clock: the virtual clock plus a skew the script can step
+			// backwards ("forall receipt times": they need not be monotonic).
+			var skew time.Duration
+			m.mon.now = func() time.Time { return time.Now().Add(skew) }
 			x.Spawn("monitor", m.run)
 			x.Spawn("driver", func() {
 				defer m.done()
@@ -206,6 +210,10 @@ func c18Run(t *testing.T, c c18Case) (x *vsched.Exec, out [][2]string) {
 				model := newC18Model()
 				for i, msg := range c.Seq {
 					vsched.Sleep(msg.Gap)
+					if msg.Type == "CLOCK-BACK" {
+						skew -= 10 * time.Minute // the wall clock is stepped back by ten minutes
+						continue
+					}
 					if msg.Type == "FLAP" {
 						// The link goes down: the monitor re-initialises; what it has
 						// exported stays, and what arrives afterwards is counted as before.
@@ -213,7 +221,7 @@ func c18Run(t *testing.T, c c18Case) (x *vsched.Exec, out [][2]string) {
 						vsched.Sleep(100 * time.Millisecond)
 						continue
 					}
-					at := time.Now()
+					at := time.Now().Add(skew)
 					n := 1
 					if msg.Burst > 1 {
 						n = msg.Burst
@@ -280,7 +288,7 @@ func c18Run(t *testing.T, c c18Case) (x *vsched.Exec, out [][2]string) {
 func TestVerifC18(t *testing.T) {
 	r := ev.Begin("C18", "messages")
 	defer r.End(t)
-	r.Rule = "messages fed to the real Monitor.Run (real listener, memory metrics, virtual clock): (a) every single event = message shape (RA: M,O x lifetime {0,30s} x prefixes {none, P1, P1 infinite/zero, P1+P2, P1 with host bits, P1/48, wire-patched length byte 200 followed by P2} x unknown option {no,yes}; RS; NS; NA) x sender {fe80::1%eth0, fe80::1, fe80::2%eth0, 2001:db8::1%eth0, ::%eth0} x gap {0, 1.5s}; (b) all sequences of length<=L over a 17-event sub-alphabet (16 messages + a link flap that makes the monitor re-initialise) chosen so that labels collide (same sender with/without zone, same prefix with other lifetimes/flags, lifetime 0 after non-zero, the same RA again later, RS/NS from an RA's sender); oracle: the eight corerad_monitor_* series equal a map-based model after every message, Run never returns; non-trivial = every case; distinct = distinct sequence"
+	r.Rule = "messages fed to the real Monitor.Run (real listener, memory metrics, virtual clock): (a) every single event = message shape (RA: M,O x lifetime {0,30s} x prefixes {none, P1, P1 infinite/zero, P1+P2, P1 with host bits, P1/48, wire-patched length byte 200 followed by P2} x unknown option {no,yes}; RS; NS; NA) x sender {fe80::1%eth0, fe80::1, fe80::2%eth0, 2001:db8::1%eth0, ::%eth0} x gap {0, 1.5s}; (b) all sequences of length<=L over a 18-event sub-alphabet (16 messages + a link flap that makes the monitor re-initialise + the wall clock stepped back by 10 min) chosen so that labels collide (same sender with/without zone, same prefix with other lifetimes/flags, lifetime 0 after non-zero, the same RA again later, RS/NS from an RA's sender); oracle: the eight corerad_monitor_* series equal a map-based model after every message, Run never returns; non-trivial = every case; distinct = distinct sequence"
 	if r.Replay != nil {
 		var c c18Case
 		if err := json.Unmarshal(r.Replay, &c); err != nil {
@@ -366,6 +374,16 @@ func TestVerifC18(t *testing.T) {
 		ra("O", 30, "p1", "2001:db8::1", 1500*time.Millisecond),
 		ra("M", 30, "p1", "fe80::1%eth0", 3*time.Second),
 		{Type: "FLAP", Gap: 500 * time.Millisecond},
+		{Type: "CLOCK-BACK", Gap: 500 * time.Millisecond},
+	}
+	// A message, the clock stepped back, another message (for every pair of the alphabet).
+	for _, m1 := range sub {
+		for _, m2 := range sub {
+			if m1.Type == "FLAP" || m1.Type == "CLOCK-BACK" || m2.Type == "FLAP" || m2.Type == "CLOCK-BACK" {
+				continue
+			}
+			one(c18Case{Seq: []c18Msg{m1, {Type: "CLOCK-BACK", Gap: 500 * time.Millisecond}, m2}})
+		}
 	}
 	enum.Sequences(len(sub), L, func(seq []int) bool {
 		if len(seq) < 2 {
